@@ -64,20 +64,20 @@ theorem execs_appends (p : P) (c : Bytes) : ∀ (fs : FS P) (acc : Bytes), fs p 
 /-- a completed `with open(p,"wb") as f: f.write(c)` leaves exactly `c` in `p` -/
 theorem execs_writeFile (fs : FS P) (p : P) (c : Bytes) : execs fs (writeFile p c) p = some c := by
   unfold writeFile
-  rw [execs_cons, execs_append, execs_cons, execs_nil]
-  have h0 : exec fs (Op.openW p) p = some [] := by simp [exec, FS.set]
+  rw [execs_cons, execs_cons, execs_append, execs_cons, execs_nil]
+  have h0 : exec (exec fs (Op.openW p)) (Op.wbuf p) p = some [] := by simp [exec, FS.set]
   have := execs_appends p c _ _ h0
   simpa [exec] using this
 
 theorem writeFile_untouched (p q : P) (c : Bytes) (h : p ≠ q) : ∀ o ∈ writeFile p c, o.touches q = false := by
   intro o ho
   simp only [writeFile, List.mem_cons, List.mem_append, List.mem_map, List.not_mem_nil, or_false] at ho
-  rcases ho with rfl | ⟨b, _, rfl⟩ | rfl <;> simp [Op.touches, h]
+  rcases ho with rfl | rfl | ⟨b, _, rfl⟩ | rfl <;> simp [Op.touches, h]
 
 theorem appendFile_untouched (p q : P) (c : Bytes) (h : p ≠ q) : ∀ o ∈ appendFile p c, o.touches q = false := by
   intro o ho
   simp only [appendFile, List.mem_cons, List.mem_append, List.mem_map, List.not_mem_nil, or_false] at ho
-  rcases ho with rfl | ⟨b, _, rfl⟩ | rfl <;> simp [Op.touches, h]
+  rcases ho with rfl | rfl | ⟨b, _, rfl⟩ | rfl <;> simp [Op.touches, h]
 
 /-- every crash point inside operations that do not touch `q` leaves `q` alone -/
 theorem prefix_untouched {ops pre : List (Op P)} (q : P) (h : ∀ o ∈ ops, o.touches q = false) (hp : pre <+: ops)
@@ -89,21 +89,24 @@ theorem prefix_writeFile {pre : List (Op P)} (p : P) (c : Bytes) (hp : pre <+: w
     pre = [] ∨ ∃ c', c' <+: c ∧ execs fs pre p = some c' := by
   unfold writeFile at hp
   rw [List.prefix_cons_iff] at hp
-  rcases hp with rfl | ⟨t, rfl, ht⟩
+  rcases hp with rfl | ⟨t0, rfl, ht0⟩
   · left; rfl
   · right
-    have h0 : exec fs (Op.openW p) p = some [] := by simp [exec, FS.set]
+    have h0 : exec (exec fs (Op.openW p)) (Op.wbuf p) p = some [] := by simp [exec, FS.set]
+    rw [List.prefix_cons_iff] at ht0
+    rcases ht0 with rfl | ⟨t, rfl, ht⟩
+    · exact ⟨[], List.nil_prefix, by simp [execs_cons, execs_nil, exec, FS.set]⟩
     rcases prefix_append_cases ht with h1 | ⟨t', rfl, ht'⟩
-    · -- inside the appends: t is a prefix of c.map append, so t = c'.map append for the prefix c' of c
+    · -- inside the flush: t is a prefix of c.map append, so t = c'.map append for the prefix c' of c
       obtain ⟨c', hc', rfl⟩ : ∃ c', c' <+: c ∧ t = c'.map (Op.append p) := by
         rw [List.prefix_iff_eq_take] at h1
         refine ⟨c.take t.length, List.take_prefix _ _, ?_⟩
         rw [h1, List.map_take]; simp
       refine ⟨c', hc', ?_⟩
-      rw [execs_cons]
+      rw [execs_cons, execs_cons]
       simpa using execs_appends p c' _ _ h0
     · refine ⟨c, List.prefix_refl c, ?_⟩
-      rw [execs_cons, execs_append]
+      rw [execs_cons, execs_cons, execs_append]
       have h1 := execs_appends p c _ _ h0
       have : ∀ o ∈ t', Op.touches p o = false := by
         intro o ho
